@@ -483,3 +483,101 @@ Proof.
   apply read_elems_printed; [discriminate|exact Hok|].
   rewrite app_length. pose proof (sen_elems_length html l Hok). cbn [length]. lia.
 Qed.
+
+(* ---- objects of strings *)
+Lemma elem_first_obj html s : elem_ok html s ->
+  exists b r, sen_string html s = b :: r /\
+    act_is (SenMaps.tab_valueMap b) SenMaps.A_closeObject = false.
+Proof.
+  intro Hs. destruct (sen_quoted html s) eqn:Hq.
+  - unfold sen_string. destruct s as [|b0 s']; [exists x22, [x22]; split; reflexivity|].
+    rewrite Hq. eexists; eexists. split; reflexivity.
+  - destruct Hs as [Hs|Hs]; [rewrite Hq in Hs; discriminate|]. destruct s as [|b0 s']; [discriminate Hq|].
+    assert (Hm : b0 <> x2d) by (intro E; subst b0; discriminate Hs).
+    assert (Hp : b0 <> x2b) by (intro E; subst b0; discriminate Hs).
+    destruct (sen_bare_round_trip html b0 s' x20 [] Hq Hm Hp eq_refl) as (E1 & _ & _). rewrite E1.
+    destruct (elem_first html (b0 :: s') (or_intror Hs)) as (b & r & E & _ & _).
+    rewrite E1 in E. inversion E; subst b r.
+    (* the first byte starts a token *)
+    assert (Hq' := Hq). unfold sen_quoted in Hq'.
+    apply orb_false_iff in Hq' as [Hq' Hbody]. apply orb_false_iff in Hq' as [_ Hfirst]. apply negb_false_iff in Hfirst.
+    destruct (sen_body_bare (length (b0 :: s')) html true (b0 :: s') (le_n _) Hbody) as (_ & E2 & _).
+    pose proof (Forall_inv E2) as Hb0. cbn beta in Hb0.
+    assert (Hbf : bare_first html b0 = true).
+    { unfold bare_first. unfold sen_first_ok in Hfirst. unfold bare_class in Hb0.
+      apply orb_true_iff in Hfirst as [Hfirst|Hfirst].
+      - rewrite Hfirst. reflexivity.
+      - apply andb_true_iff in Hfirst as [Hh Hc]. apply beqb_eq in Hc. rewrite Hc in Hb0 |- *.
+        change (beqb x68 x6f) with false in *. change (beqb x68 x30) with false in *. change (beqb x68 x38) with false in *.
+        exact Hb0. }
+    pose proof (bare_first_starts_token html b0 Hbf Hm Hp) as Hst. unfold is_start in Hst. apply N.eqb_eq in Hst.
+    exists b0, s'. split; [reflexivity|]. unfold act_is. rewrite Hst. reflexivity.
+Qed.
+
+Lemma after_key_colon html k rest : after_key (elem_out html k) (x3a :: rest) = Some rest.
+Proof. unfold elem_out. destruct (sen_quoted html k); reflexivity. Qed.
+
+Definition member_out (html : bool) (kv : bytes * bytes) : bytes * rout :=
+  (rout_bytes (elem_out html (fst kv)), elem_out html (snd kv)).
+Definition member_ok (html : bool) (kv : bytes * bytes) : Prop := elem_ok html (fst kv) /\ elem_ok html (snd kv).
+
+(* one member followed by the terminator t (a blank or the closing brace) *)
+Lemma read_member_text html k v t rest : elem_ok html k -> elem_ok html v -> tok_end (SenMaps.tab_tokenMap t) = true ->
+  exists b r, sen_string html k ++ x3a :: sen_string html v ++ t :: rest = b :: r /\
+    skip_ws (b :: r) = b :: r /\ act_is (SenMaps.tab_valueMap b) SenMaps.A_closeObject = false /\
+    rrun rinit (b :: r) = Some (elem_out html k, x3a :: sen_string html v ++ t :: rest) /\
+    rrun rinit (sen_string html v ++ t :: rest) = Some (elem_out html v, t :: rest).
+Proof.
+  intros Hk Hv Ht. destruct (elem_first_obj html k Hk) as (b & r & E & N2).
+  exists b, (r ++ x3a :: sen_string html v ++ t :: rest). rewrite E. split; [reflexivity|].
+  split.
+  - pose proof (skip_ws_elem html k (x3a :: sen_string html v ++ t :: rest) Hk) as S. rewrite E in S. exact S.
+  - split; [exact N2|]. split.
+    + pose proof (elem_read html k x3a (sen_string html v ++ t :: rest) Hk eq_refl) as HR. unfold sen_read in HR. rewrite E in HR. exact HR.
+    + exact (elem_read html v t rest Hv Ht).
+Qed.
+
+Lemma read_members_printed html ms : forall fuel rest, ms <> [] -> Forall (member_ok html) ms -> (length ms < fuel)%nat ->
+  read_members fuel (sen_members html ms ++ x7d :: rest) = Some (map (member_out html) ms, rest).
+Proof.
+  induction ms as [|[k v] ms IH]; intros fuel rest Hne Hok Hf; [contradiction|].
+  destruct fuel as [|fuel]; [simpl in Hf; lia|]. simpl in Hf.
+  pose proof (Forall_inv Hok) as [Hk Hv]. pose proof (Forall_inv_tail Hok) as Hms. cbn [fst snd] in Hk, Hv.
+  destruct ms as [|[k2 v2] ms2].
+  - cbn [sen_members map]. rewrite <- ?app_assoc. cbn [List.app]. rewrite <- ?app_assoc. cbn [List.app].
+    destruct (read_member_text html k v x7d rest Hk Hv eq_refl) as (b & r & E & S & N2 & RK & RV).
+    rewrite E. cbn [read_members]. rewrite S, N2, RK. rewrite after_key_colon. rewrite RV.
+    destruct fuel as [|fuel]; [lia|]. cbn [read_members skip_ws].
+    change (act_is (SenMaps.tab_valueMap x7d) SenMaps.A_skipChar) with false. cbn iota.
+    change (act_is (SenMaps.tab_valueMap x7d) SenMaps.A_closeObject) with true. cbn iota. reflexivity.
+  - change (sen_members html ((k, v) :: (k2, v2) :: ms2)) with
+      (sen_string html k ++ x3a :: sen_string html v ++ x20 :: sen_members html ((k2, v2) :: ms2)).
+    rewrite <- ?app_assoc. cbn [List.app]. rewrite <- ?app_assoc. cbn [List.app map].
+    destruct (read_member_text html k v x20 (sen_members html ((k2, v2) :: ms2) ++ x7d :: rest) Hk Hv eq_refl) as (b & r & E & S & N2 & RK & RV).
+    rewrite E. cbn [read_members]. rewrite S, N2, RK. rewrite after_key_colon. rewrite RV.
+    assert (Hsk : read_members fuel (x20 :: sen_members html ((k2, v2) :: ms2) ++ x7d :: rest) =
+                  read_members fuel (sen_members html ((k2, v2) :: ms2) ++ x7d :: rest)).
+    { destruct fuel as [|f2]; [reflexivity|]. cbn [read_members skip_ws].
+      change (act_is (SenMaps.tab_valueMap x20) SenMaps.A_skipChar) with true. cbn iota. reflexivity. }
+    rewrite Hsk. rewrite (IH fuel rest ltac:(discriminate) Hms ltac:(simpl in *; lia)). reflexivity.
+Qed.
+
+Lemma sen_members_length html ms : (length ms <= length (sen_members html ms))%nat.
+Proof.
+  induction ms as [|[k v] ms IH]; [simpl; lia|]. destruct ms as [|[k2 v2] ms2].
+  - cbn [sen_members length]. rewrite app_length. cbn [length]. lia.
+  - change (sen_members html ((k, v) :: (k2, v2) :: ms2)) with
+      (sen_string html k ++ x3a :: sen_string html v ++ x20 :: sen_members html ((k2, v2) :: ms2)).
+    rewrite app_length. cbn [length]. rewrite app_length. cbn [length] in *. lia.
+Qed.
+
+Theorem sen_object_round_trip html ms rest : Forall (member_ok html) ms ->
+  read_object (sen_object html ms ++ rest) = Some (map (member_out html) ms, rest).
+Proof.
+  intro Hok. unfold sen_object. destruct ms as [|m ms]; [reflexivity|].
+  set (l := m :: ms) in *. cbn [List.app read_object].
+  change (act_is (SenMaps.tab_valueMap x7b) SenMaps.A_openObject) with true. cbn iota.
+  rewrite <- app_assoc. cbn [List.app].
+  apply read_members_printed; [discriminate|exact Hok|].
+  rewrite app_length. pose proof (sen_members_length html l). cbn [length]. lia.
+Qed.
